@@ -111,6 +111,9 @@ partial def specOf (j : Json) : Option Spec :=
     some (.syn (← attrOf (getD j "run")) (← bool? (getD j "call")) (← attrOf (getD j "fill"))
       (← attrOf (getD j "compute")) (← bool? (getD j "nodata")))
   | some "run" => do some (.runAdapter (← specOf (getD j "el")))
+  | some "runnamed" => do some (.runNamed (← specOf (getD j "el")))
+  | some "runnone" => do some (.runNone (← fnOf (← str? (getD j "f"))))
+  | some "runnonebad" => some .runNoneBad
   | some "junk" => some .junk
   | some "setctx" => some .setContext
   | some "gen" => (valuesOf (getD j "flow")).map Spec.gen
@@ -177,7 +180,18 @@ def handle (j : Json) : Json :=
     | _, _ => err "bad fold args"
   | some "flats" =>
     match specsOf (getD j "prog") with
-    | some prog => Json.mkObj [("n", ofNat (Spec.flats prog).length)]
+    | some prog =>
+      -- `len(Sequence(*prog))` and what `meta.flatten` returns for it / for its first argument alone
+      let nargs : Json := match Spec.toElement (.seq prog) with
+        | .ok _ => ofNat prog.length
+        | .error _ => Json.null
+      let shape1 : Json := match prog with
+        | s :: _ => (match Spec.toTree s with
+                     | .ok (.leaf _) => Json.str "element"
+                     | .ok t => ofNat (flatten t).length
+                     | .error _ => Json.null)
+        | [] => Json.null
+      Json.mkObj [("n", ofNat (Spec.flats prog).length), ("nargs", nargs), ("first", shape1)]
     | none => err "bad flats args"
   | some "source" =>
     match specsOf (getD j "args") with
@@ -213,6 +227,8 @@ def handle (j : Json) : Json :=
       | .ok el => Json.mkObj [("run", ofNat (attrNat el.run)), ("call", Json.bool el.call),
           ("fill", ofNat (attrNat el.fill)), ("compute", ofNat (attrNat el.compute)),
           ("nodata", Json.bool el.hasNoData), ("iter", Json.bool el.hasIter),
+          ("fill_into", Json.bool (el.fillInto.present && el.fillInto.callable)),
+          ("can_break_flow", Json.bool el.canBreakFlow), ("is_split", Json.bool el.isSplit),
           ("convertible", Json.bool el.convertible)]
     | none => err "bad flags args"
   | _ => err "unknown op"
